@@ -369,6 +369,16 @@ func Recipes() []Recipe {
 			return Built{Txs: []*TxMeta{x.tx("vesting send A4->A6", KA4, &fsm.MessageSend{FromAddress: addrOf(KA4), ToAddress: addrOf(KA6), Amount: x.W.Fee,
 				VestingStartHeight: x.H, VestingCliffHeight: x.H, VestingEndHeight: x.H + 2}, x.W.Fee)}}
 		}},
+		// vesting sends with FIXED terms: the second one (same block, and every later application of the recipe) tops up
+		// the tranche the first one opened instead of replacing it (sixth-round seed C04: the top-up branch lost the amount)
+		{Name: "send-vesting-fixed-terms(A4->A6 fee; A5->A6 1; 1/1/60)", Build: func(x *Ctx) Built {
+			return Built{Txs: []*TxMeta{
+				x.tx("vesting send A4->A6 fixed terms", KA4, &fsm.MessageSend{FromAddress: addrOf(KA4), ToAddress: addrOf(KA6), Amount: x.W.Fee,
+					VestingStartHeight: 1, VestingCliffHeight: 1, VestingEndHeight: 60}, x.W.Fee),
+				x.tx("vesting send A5->A6 fixed terms", KA5, &fsm.MessageSend{FromAddress: addrOf(KA5), ToAddress: addrOf(KA6), Amount: 1,
+					VestingStartHeight: 1, VestingCliffHeight: 1, VestingEndHeight: 60}, x.W.Fee),
+			}}
+		}},
 		// a block whose ONLY transaction sends from an account to itself: nothing else touches the account first
 		{Name: "send-self-only(A5->A5 3)", Build: func(x *Ctx) Built {
 			return Built{Txs: []*TxMeta{x.send("self", KA5, KA5, 3)}}
